@@ -550,6 +550,9 @@ def run_invocations(ctx, mage, wrap, d, pr, names):
     parent, base = os.path.dirname(d), os.path.basename(d)
     locals_ = [fn for f in pr["files"] for fn, v in pr["local"][f]["funcs"] if v != 2]
     tgt = locals_[0] if locals_ else None
+    anyf = [fn for f in pr["files"] for fn, v in pr["local"][f]["funcs"]] + [fn for f in pr["files"] for s_ in pr["specs"][f] if s_["path"] in pr["pkgs"]
+                                                                            for fn, v in pr["pkgs"][s_["path"]]["funcs"] if not s_["alias"]]
+    tgt_env = tgt or (anyf[0] if anyf else None)            # a value for unknown variables: the name of some target of the project
     plan = [("-l", d, ["-l"], None), ("-v -l", d, ["-v", "-l"], None), ("-debug -l", d, ["-debug", "-l"], None),
             ("-t 10m -l", d, ["-t", "10m", "-l"], None), ("-t 1s -l", d, ["-t", "1s", "-l"], None), ("-f -l", d, ["-f", "-l"], None),
             ("-gocmd go -l", d, ["-gocmd", "go", "-l"], None), ("-gocmd wrapper -l", d, ["-gocmd", wrap, "-l"], None),
@@ -561,7 +564,7 @@ def run_invocations(ctx, mage, wrap, d, pr, names):
         if n in KNOWN_ENV:
             plan.append(("%s=%s -l" % (n, KNOWN_ENV[n]), d, ["-l"], {n: KNOWN_ENV[n]}))
         else:
-            for val in ([tgt] if tgt else []) + ["1", "true", "10m"]:
+            for val in ([tgt_env] if tgt_env else []) + ["1", "true", "10m"]:
                 plan.append(("%s=%s -l" % (n, val), d, ["-l"], {n: val}))
     # the environment the go tool reads: mage pins GOOS/GOARCH of its own go commands to the host, so none of these may
     # reach the generated source (imported packages have host-only, windows-only and tag-only files with targets)
@@ -613,7 +616,10 @@ def run_locations(ctx, mage, pr):
         os.makedirs(os.path.join(real, "dist"))
         main = os.path.join(real, MAINFILE)
         cache = os.path.join(root, "cache_" + label.replace(" ", "_"))
-        for cmd in (["-l"], ["-compile", "./out.bin"], ["-compile", "dist"], ["-compile", "rel" + os.sep], ["-compile", os.path.join("sub", "tool")]):
+        cmds = [["-l"], ["-compile", "dist"], ["-compile", "rel" + os.sep]]
+        if not ctx.quick:
+            cmds += [["-compile", "./out.bin"], ["-compile", os.path.join("sub", "tool")]]
+        for cmd in cmds:
             if os.path.exists(main):
                 os.remove(main)
             r = mage.run(d, ["-keep"] + cmd, cache=cache, timeout=600)
@@ -800,6 +806,21 @@ def run_cache_attrs(ctx, mage, cp):
     return out
 
 
+class RetryMage(projlib.Mage):
+    """the go build cache is shared by everything on the machine; when somebody trims it (or the disk fills up) while a
+    build is linking, the go tool fails with a missing cache file - an accident of the environment, retried"""
+    TRANSIENT = re.compile(r"go-build/[0-9a-f]{2}/[0-9a-f]+-[ad]: no such file or directory|no space left on device|is not in std \(")
+
+    def run(self, cwd, args, **kw):
+        r = projlib.Mage.run(self, cwd, args, **kw)
+        for _ in range(2):
+            if r["rc"] == 0 or not self.TRANSIENT.search(r["err"]):
+                break
+            self.ctx.add("transient_go_build_cache_failures_retried")
+            r = projlib.Mage.run(self, cwd, args, **kw)
+        return r
+
+
 def run(ctx):
     ctx.prove(["Props/C18.vo", "Run/eval_C18.vo"], extra_props=["Compose_C18_imports"])   # + the three transcriptions of setImports (Gen, Dupes, ImportTag) agree
     import extractlib; extractlib.fn_tie(ctx, ['TargetName/Gen', 'Functions.Less', 'Imports.Less'])   # pure functions translated from the current source, re-proved equal to the models' (tools/notes/Translator.md)
@@ -809,8 +830,16 @@ def run(ctx):
         "go/parser, go/doc (sorted declaration lists), text/template (sorted map range, deterministic substitution), sort.Sort/sort.Strings return a sorted permutation",
     ]
     rng = ctx.rng
-    mage = projlib.Mage(ctx)
-    binp = go_build_harness(ctx, "unitrun")
+    def retrying(fn):
+        for k in range(3):
+            try:
+                return fn()
+            except BuildError as ex:
+                if k == 2 or not RetryMage.TRANSIENT.search(str(ex)):
+                    raise
+                ctx.add("transient_go_build_cache_failures_retried")
+    mage = retrying(lambda: RetryMage(ctx))
+    binp = retrying(lambda: go_build_harness(ctx, "unitrun"))
     rc_, out_, _ = sh(["go", "env", "GOOS", "GOARCH"], env=goenv(), timeout=60)
     if rc_ == 0 and len(out_.split()) == 2:
         HOST["GOOS"], HOST["GOARCH"] = out_.split()
@@ -820,7 +849,7 @@ def run(ctx):
     runs_a, runs_b = (12, 4) if quick else (48, 16)
     reps, nprocs = (30, 4) if quick else (125, 4)      # beyond a few hundred repetitions nothing is gained: (7/8)^500 < 1e-28
     nhist = 3 if quick else 8
-    ninv = 2 if quick else 6
+    ninv = 1 if quick else 6
     nloc = 1 if quick else 3
     projects, compile_projects = [], []
     if ctx.replay and ctx.replay.get("case"):
